@@ -146,6 +146,8 @@ void SeqPlan::normalize()
     steps = std::move(out);
 }
 
+void (*g_seq_call_hook)(const char* tag) = nullptr;
+
 namespace
 {
 constexpr int64_t INF = INT64_MAX;
@@ -750,7 +752,11 @@ struct SeqRun
 
         ++st.calls;
         ++s_calls_step;
+        if (g_seq_call_hook)
+            g_seq_call_hook(tr.policy == Policy::rr && !isLive && (op.allow & ALLOW_INSERT) && o0.size == (int64_t)cfg.capacity ? "rr_evict" : "");
         bool res = S->insert(k, op.val, op.allow, op.ttl_ms);
+        if (g_seq_call_hook)
+            g_seq_call_hook("");
         note({res});
         writes[op.val]     = WriteInfo{k, false};
         const int64_t dl   = eff_deadline(op.ttl_ms);
